@@ -16,6 +16,9 @@ type OptEntry struct {
 	L        engine.Label `json:"l"`            // key; L.Spell is the spelling used for the name
 	Tok      int          `json:"tok"`
 	NilValue bool         `json:"nil,omitempty"` // Named(name, nil) / Typed(nil): must change nothing
+	// Join: this type-only, subtype-less entry is passed in the same
+	// Typed(v1, v2, ...) option as the previous entry (if that is one too).
+	Join bool `json:"join,omitempty"`
 }
 
 type C16Case struct {
@@ -45,26 +48,54 @@ func entryArg(e OptEntry) argmapper.Arg {
 	return argmapper.NamedSubtype(name, val, e.L.Sub)
 }
 
+// entryArgs renders entries as options; joinable neighbours become one
+// multi-value Typed(...) option. nilAt: position before which a nil Arg is
+// inserted (-1: none).
+func entryArgs(es []OptEntry, nilAt int) []argmapper.Arg {
+	var out []argmapper.Arg
+	for i := 0; i < len(es); i++ {
+		if i == nilAt {
+			out = append(out, nil)
+		}
+		e := es[i]
+		plain := func(e OptEntry) bool { return !e.L.Named() && e.L.Sub == "" }
+		if plain(e) {
+			var vals []interface{}
+			j := i
+			for {
+				if es[j].NilValue {
+					vals = append(vals, nil)
+				} else {
+					vals = append(vals, engine.MakeValue(es[j].L.Type, es[j].Tok).Interface())
+				}
+				if j+1 < len(es) && plain(es[j+1]) && es[j+1].Join && j+1 != nilAt {
+					j++
+					continue
+				}
+				break
+			}
+			if j > i {
+				out = append(out, argmapper.Typed(vals...))
+				i = j
+				continue
+			}
+		}
+		out = append(out, entryArg(e))
+	}
+	return out
+}
+
 // runOpts builds the target with defaults, calls it with the call options and
 // returns the per-parameter tokens.
 func runOpts(x *C16Case, defaults, callOpts []OptEntry, nilAt int) (engine.Outcome, map[string]int, error) {
 	w := engine.NewWorld()
-	var dargs []argmapper.Arg
-	for _, e := range defaults {
-		dargs = append(dargs, entryArg(e))
-	}
+	dargs := entryArgs(defaults, -1)
 	tgt := x.Target
 	f, err := w.Realize(&tgt, dargs...)
 	if err != nil {
 		return engine.Outcome{}, nil, err
 	}
-	var cargs []argmapper.Arg
-	for i, e := range callOpts {
-		if i == nilAt {
-			cargs = append(cargs, nil)
-		}
-		cargs = append(cargs, entryArg(e))
-	}
+	cargs := entryArgs(callOpts, nilAt)
 	if nilAt >= len(callOpts) {
 		cargs = append(cargs, nil)
 	}
@@ -163,6 +194,16 @@ func evalC16(c *engine.Case) engine.Verdict {
 	}
 	if x.NilOpt >= 0 {
 		v.Class("nil-option")
+	}
+	for i := 1; i < len(x.Opts); i++ {
+		a, b := x.Opts[i-1], x.Opts[i]
+		if b.Join && !a.L.Named() && a.L.Sub == "" && !b.L.Named() && b.L.Sub == "" && i != x.Split {
+			v.Class("multi-value-Typed")
+			if a.NilValue {
+				v.Class("nil-inside-multi-value-Typed")
+			}
+			break
+		}
 	}
 	v.NonTrivial = dup || override || casing
 
@@ -264,7 +305,7 @@ func genC16(g engine.G) *engine.Case {
 			l.Spell = caseVariant(g, l.Name)
 			l.Tag = g.Pct(30)
 		}
-		if g.Pct(30) {
+		if g.Pct(30) && (l.Named() || g.Pct(40)) {
 			l.Sub = engine.Pick(g, engine.AllSubs)
 		}
 		if !l.Named() {
@@ -290,7 +331,7 @@ func genC16(g engine.G) *engine.Case {
 			}
 			x.Opts = append(x.Opts, e)
 		}
-		if g.Pct(20) {
+		if g.Pct(35) {
 			e := OptEntry{L: p, NilValue: true}
 			if p.Named() {
 				e.L.Spell = caseVariant(g, p.Name)
@@ -299,6 +340,9 @@ func genC16(g engine.G) *engine.Case {
 		}
 	}
 	x.Opts = rapidPerm(g, x.Opts)
+	for i := range x.Opts {
+		x.Opts[i].Join = g.Pct(60)
+	}
 	x.Split = g.Int(0, len(x.Opts))
 	if g.Pct(40) {
 		x.Split = 0
